@@ -55,6 +55,9 @@ pub fn universe_spec(kind: &str) -> Vec<String> {
         "ambiguous" => ["n:abc", "n:abcd", "n:abca", "n:bcd", "n:uwhale"].iter().map(|s| s.to_string()).collect(),
         // a key that is another key followed by a byte <= 1 (not a valid Cosmos denom; the factory does not validate denoms)
         "cursor" => vec!["n:aaa".to_string(), "n:bbb".to_string(), "n:bbb\u{1}".to_string(), "n:bbb\u{0}x".to_string(), "n:uwhale".to_string(), "n:bbb\u{2}".to_string()],
+        // denoms that are prefixes of other denoms: registry keys that extend other keys by ordinary characters (nothing here is skipped
+        // by the cursor as the code has it)
+        "prefix" => ["n:uluna", "n:uusd", "n:uusdc", "n:uusdt", "n:uwhale", "t:TOKA", "n:uusdcx"].iter().map(|s| s.to_string()).collect(),
         _ => panic!("unknown universe"),
     }
 }
@@ -443,20 +446,34 @@ pub fn run_history(out: &mut Out, uni: &str, h: &[Op], record: bool) -> HistoryR
         .map(|(a, b, c)| { let mut p = vec![w.raw_bytes(a), w.raw_bytes(b), w.raw_bytes(c)]; p.sort(); p.concat() }).collect();
     for limit in (1..=31u32).map(Some).chain(std::iter::once(None)) {
         out.monitor_evals += 1;
-        let check = |out: &mut Out, name: &str, n_walk: usize, dup: bool, n_raw: usize, unsafe_keys: bool| {
+        // the known cursor finding, exactly: a client that continues after key k is served the keys above k ++ [0x01]; what such a
+        // walk over the stored keys returns is computed here, and only a shortfall this computation predicts is the known finding
+        let documented_walk = |keys: &[Vec<u8>]| -> usize {
+            let lim = limit.unwrap_or(10).min(30) as usize;
+            let mut sorted = keys.to_vec(); sorted.sort();
+            let (mut cursor, mut n): (Option<Vec<u8>>, usize) = (None, 0);
+            for _ in 0..40 {
+                let page: Vec<&Vec<u8>> = sorted.iter().filter(|k| match &cursor { None => true, Some(c) => k.as_slice() > c.as_slice() }).take(lim).collect();
+                if page.is_empty() { break; }
+                n += page.len();
+                let mut c = (*page.last().unwrap()).clone(); c.push(1); cursor = Some(c);
+            }
+            n
+        };
+        let check = |out: &mut Out, name: &str, n_walk: usize, dup: bool, n_raw: usize, keys: Vec<Vec<u8>>| {
             if dup || n_walk != n_raw {
                 let what = format!("{name} pagination with page size {:?} returned {} entries{} but the registry holds {}", limit, n_walk, if dup { " (with repetitions)" } else { "" }, n_raw);
-                if unsafe_keys && !dup && n_walk < n_raw { out.known_hit("C19", KNOWN_CURSOR, &what, replay.clone()); } else { mfail(out, "C19", &what, replay.clone()); }
+                if !dup && n_walk < n_raw && n_walk == documented_walk(&keys) { out.known_hit("C19", KNOWN_CURSOR, &what, replay.clone()); } else { mfail(out, "C19", &what, replay.clone()); }
             }
         };
         let wp = w.walk_pairs(limit); let d = { let mut s = wp.clone(); s.sort(); s.dedup(); s.len() != wp.len() };
-        check(out, "Pairs", wp.len(), d, counts[0], cursor_unsafe(&all_keys_of(&w, "pair_info")));
+        check(out, "Pairs", wp.len(), d, counts[0], all_keys_of(&w, "pair_info"));
         let wt = w.walk_trios(limit); let d = { let mut s = wt.clone(); s.sort(); s.dedup(); s.len() != wt.len() };
-        check(out, "Trios", wt.len(), d, counts[1], cursor_unsafe(&all_keys_of(&w, "trio_info")));
+        check(out, "Trios", wt.len(), d, counts[1], all_keys_of(&w, "trio_info"));
         let wv = w.walk_vaults(limit); let d = { let mut s = wv.clone(); s.sort(); s.dedup(); s.len() != wv.len() };
-        check(out, "Vaults", wv.len(), d, counts[2], cursor_unsafe(&all_keys_of(&w, "vaults")));
+        check(out, "Vaults", wv.len(), d, counts[2], all_keys_of(&w, "vaults"));
         let wi = w.walk_incentives(limit); let d = { let mut s = wi.clone(); s.sort(); s.dedup(); s.len() != wi.len() };
-        check(out, "Incentives", wi.len(), d, counts[3], cursor_unsafe(&all_keys_of(&w, "incentive_mappings")));
+        check(out, "Incentives", wi.len(), d, counts[3], all_keys_of(&w, "incentive_mappings"));
         if record {
             // correspondence of the walks: (universe, ops, registry kind, page size) -> rows
             let lim = match limit { Some(l) => format!("(Some {})", l), None => "None".into() };
@@ -586,6 +603,12 @@ fn corpus() -> Vec<(&'static str, Vec<Op>)> {
         // a hop executed through the router, the pair removed, the same hop again (must be refused), the pair re-created (new contract)
         ("main", vec![Op::CreatePair(0, 1), Op::CreatePair(4, 0), Op::ExecHop(0, 1), Op::ExecHop(1, 0), Op::RemovePair(1, 0), Op::ExecHop(0, 1), Op::ExecHop(1, 0), Op::CreatePair(1, 0), Op::ExecHop(0, 1),
                       Op::CreateVault(0), Op::CreateVault(1), Op::CreateVault(4), Op::CreateVault(5), Op::RemoveVault(1), Op::RemoveVault(4)]),
+        // keys that extend other keys by ordinary characters (uluna/uusd, uluna/uusdc, uluna/uusdcx, uluna/uusdt ...): every page size must
+        // still return each of them exactly once
+        ("prefix", vec![Op::CreatePair(0, 1), Op::CreatePair(2, 0), Op::CreatePair(0, 3), Op::CreatePair(6, 0), Op::CreatePair(4, 1), Op::CreatePair(1, 2), Op::CreatePair(5, 1),
+                        Op::CreateTrio(0, 1, 2), Op::CreateTrio(0, 1, 6), Op::CreateTrio(0, 1, 3), Op::CreateTrio(4, 1, 0),
+                        Op::CreateVault(1), Op::CreateVault(2), Op::CreateVault(6), Op::CreateVault(3), Op::CreateVault(0),
+                        Op::CreateIncentive(1), Op::CreateIncentive(2), Op::CreateIncentive(6), Op::CreateIncentive(3), Op::RemovePair(0, 1), Op::CreatePair(1, 0)]),
         // known finding: ambiguous concatenated keys
         ("ambiguous", vec![Op::CreatePair(0, 1), Op::CreatePair(2, 3), Op::ExecHop(2, 3), Op::RemovePair(3, 2), Op::CreatePair(3, 2), Op::CreatePair(1, 0), Op::CreateTrio(0, 1, 4), Op::CreateTrio(2, 3, 4)]),
         // known finding: a key that extends another key by a byte <= 1 is skipped by the cursor
